@@ -122,3 +122,21 @@ func init() {
 			Old: "\t\t\tif text == \"\" {", New: "\t\t\tif len(text) == 0 {", Benign: true},
 	)
 }
+
+// Round 7 (minimal changes with the earlier ones excluded by name): the ones missed at the first run.
+func init() {
+	seed := func(prop, id, rule, construct string) variant {
+		return variant{Prop: prop, Name: "seeded-" + id + "-" + prop, Patch: "seeded/" + id + "/patch.diff", Rule: rule, Construct: construct}
+	}
+	addVariants(
+		seed("C02", "C02-r7-3", "R2.4c", "after a line break"),
+		seed("C02", "C06-r7-3", "R2.4c", "after a line break"),
+		seed("C02", "C02-r7-4", "R2.7", "ForStatement.Update"),
+		seed("C02", "C16-r7-2", "R2.6", "grows in a loop"),
+		seed("C04", "C04-r7-4", "R4.3", "passes its binding-power parameter"),
+		seed("C06", "C06-r7-2", "R6.8", "through the option pointer"),
+		seed("C07", "C07-r7-4", "R7.1", "writes bytes, not code points"),
+		seed("C12", "C13-r7-2", "R12.1", "ends at '}' or at the end of input"),
+		seed("C15", "C15-r7-4", "R15.5", "written exactly for non-empty entries"),
+	)
+}
